@@ -107,6 +107,12 @@ class ScaledValueExpression(inline.InlineElement):  # type: ignore
     :py;class:`~ScaledValueString`.
     """
 
+    children: str
+    """
+    The plain-text rendering of :py:attr:`string` (unscaled). Used by marko
+    wherever inline elements are flattened to plain text (e.g. image alt text).
+    """
+
     def __init__(self, match: Match[str]) -> None:
         self.string = SVS(
             [
@@ -135,6 +141,7 @@ class ScaledValueExpression(inline.InlineElement):  # type: ignore
                 for submatch in self.any_part_pattern.finditer(match["source"])
             ]
         )
+        self.children = str(self.string)
 
 
 class LogPosMixin:
